@@ -1,25 +1,112 @@
-// Lockstep harness for dispenso::ChaseLevDeque (C36) under harness/vsched.h.
-// One case per line:
-//   <cap 1|2|4|8|16> <i0> <budget> ; <owner prog> ; <thief prog> ; ... ; S <schedule ints...>
-// prog tokens: U<v> try_push(v)   O try_pop   T try_steal        (thread 0 = owner; thieves use T only)
-// Output (one line): steps t:site ... | results t:tag=v ... | blocked | top T bot B rem v v ... | status S
-//   rem = slots[top_ .. bottom_) read after the run (oldest first).
+// Lockstep + native-stress harness for dispenso::ChaseLevDeque (C36) under harness/vsched.h.
+//
+// Element type: Elem<W> = W 64-bit words all holding the element id (so a torn / half-overwritten payload is visible), for
+// W in {1, 3, 9, 17} (8, 24, 72 > one cache line, 136 > two cache lines of 64 bytes), capacities {1, 2, 4, 8, 16}.  Elem's copy
+// constructor / assignment report every payload copy to the harness.  ChaseLevDeque demands a trivially copyable T; Elem is
+// bit-copyable (plain words) and std::is_trivially_copyable is specialised for it here so that the tracked type is accepted.
+//
+// A. lockstep case (one per line):
+//   <cap> <i0> <budget> <W> ; <owner prog> ; <thief prog> ; ... ; S <schedule ints...>
+//   prog tokens: U<v> try_push(v)   O try_pop   T try_steal        (thread 0 = owner; thieves use T only)
+//   Output: steps t:site ... | results t:tag=v ... | blocked | top T bot B stray N rem v v ... | status S
+//     rem   = slots[top_ .. bottom_) read after the run (oldest first); a torn payload is reported as -777
+//     stray = payload copies from / to a SLOT made by an enrolled thread whose last granted hook is not the matching
+//             cl.pop.slot_read / cl.steal.slot_read (reads) or cl.push.slot_write (writes), or a second slot access under the
+//             same grant: every slot access must be its own scheduled step, immediately preceded by its DISPENSO_VERIF_POINT
+// B. native stress (unscheduled threads, one-sided search for a concrete witness):
+//   stress <cap> <W> <nthieves> <millis>
+//   Output: stress cap C w W thieves K pushed N returned R torn T dup D lost L unknown U firstdup X firstlost Y
+//     the owner keeps the deque full with unique ids 1..N (and pops now and then), thieves steal; afterwards every id must have
+//     been returned exactly once (pops + steals + final drain), untorn.
 #include <atomic>
+#include <chrono>
 #include <cstdio>
 #include <cstdlib>
 #include <cstring>
 #include <iostream>
 #include <sstream>
 #include <string>
+#include <thread>
+#include <type_traits>
 #include <vector>
 #include <sys/wait.h>
 #include <unistd.h>
+
+static void noteCopy(const void* dst, const void* src);
+
+template <size_t W>
+struct Elem {
+  int64_t w[W];
+  Elem() = default;
+  Elem(const Elem& o) {
+    noteCopy(this, &o);
+    for (size_t i = 0; i < W; ++i) w[i] = o.w[i];
+  }
+  Elem& operator=(const Elem& o) {
+    noteCopy(this, &o);
+    for (size_t i = 0; i < W; ++i) w[i] = o.w[i];
+    return *this;
+  }
+};
+namespace std {
+template <size_t W>
+struct is_trivially_copyable<Elem<W>> : true_type {};
+}  // namespace std
+
 #define private public
 #define protected public
 #include <dispenso/chase_lev_deque.h>
 #undef private
 #undef protected
+#define dispenso_verif_point vs_base_verif_point
 #include "vsched.h"
+#undef dispenso_verif_point
+
+namespace {
+const char* g_lo = nullptr;   // deque storage range
+const char* g_hi = nullptr;
+bool g_trackOn = false;
+long g_stray = 0;
+const char* g_last[64];       // per enrolled thread: the hook site it was last granted at
+bool g_used[64];              // ... and whether a slot access already happened under that grant
+}  // namespace
+
+extern "C" void dispenso_verif_point(const char* site, const void* addr) {
+  if (!vs::g_sched || vs::t_self < 0) return;
+  vs::g_sched->point(site, addr);
+  if (vs::t_self < 64) {
+    g_last[vs::t_self] = site;
+    g_used[vs::t_self] = false;
+  }
+}
+
+static void noteCopy(const void* dst, const void* src) {
+  if (!g_trackOn || vs::t_self < 0 || vs::t_self >= 64) return;
+  const char* d = static_cast<const char*>(dst);
+  const char* s = static_cast<const char*>(src);
+  bool rd = s >= g_lo && s < g_hi, wr = d >= g_lo && d < g_hi;
+  if (!rd && !wr) return;
+  int t = vs::t_self;
+  const char* ls = g_last[t] ? g_last[t] : "";
+  bool ok = !g_used[t];
+  if (rd && !(strcmp(ls, "cl.pop.slot_read") == 0 || strcmp(ls, "cl.steal.slot_read") == 0)) ok = false;
+  if (wr && strcmp(ls, "cl.push.slot_write") != 0) ok = false;
+  if (!ok) ++g_stray;
+  g_used[t] = true;
+}
+
+template <size_t W>
+static Elem<W> mkElem(long id) {
+  Elem<W> e;
+  for (size_t i = 0; i < W; ++i) e.w[i] = id;
+  return e;
+}
+template <size_t W>
+static long idOf(const Elem<W>& e) {
+  for (size_t i = 1; i < W; ++i)
+    if (e.w[i] != e.w[0]) return -777;
+  return static_cast<long>(e.w[0]);
+}
 
 struct Op {
   char k;
@@ -39,26 +126,31 @@ static std::vector<Op> parseProg(const std::string& s) {
   return v;
 }
 
-template <size_t Cap>
+template <size_t Cap, size_t W>
 static void runCase(long i0, long budget, const std::vector<std::vector<Op>>& progs, const std::vector<long>& sched) {
-  static dispenso::ChaseLevDeque<int64_t, Cap> dq;
+  static dispenso::ChaseLevDeque<Elem<W>, Cap> dq;
   std::memset(dq.storage_, 0, sizeof(dq.storage_));
   dq.top_.store(i0);
   dq.bottom_.store(i0);
+  g_lo = dq.storage_;
+  g_hi = dq.storage_ + sizeof(dq.storage_);
+  g_trackOn = true;
   vs::Sched S(sched, budget, false);
   for (size_t t = 0; t < progs.size(); ++t) {
     S.spawn([&S, &progs, t]() {
       for (const Op& o : progs[t]) {
-        int64_t out = 0;
+        Elem<W> out = mkElem<W>(0);
         switch (o.k) {
-          case 'U':
-            if (dq.try_push(static_cast<int64_t>(o.a))) S.result("pushok", o.a); else S.result("pushfull", o.a);
+          case 'U': {
+            Elem<W> item = mkElem<W>(o.a);
+            if (dq.try_push(item)) S.result("pushok", o.a); else S.result("pushfull", o.a);
             break;
+          }
           case 'O':
-            if (dq.try_pop(out)) S.result("popok", static_cast<long>(out)); else S.result("popfail", 0);
+            if (dq.try_pop(out)) S.result("popok", idOf(out)); else S.result("popfail", 0);
             break;
           case 'T':
-            if (dq.try_steal(out)) S.result("stealok", static_cast<long>(out)); else S.result("stealfail", 0);
+            if (dq.try_steal(out)) S.result("stealok", idOf(out)); else S.result("stealfail", 0);
             break;
           default: break;
         }
@@ -66,11 +158,89 @@ static void runCase(long i0, long budget, const std::vector<std::vector<Op>>& pr
     });
   }
   S.run();
+  g_trackOn = false;
   std::ostringstream ex;
   int64_t tp = dq.top_.load(), bt = dq.bottom_.load();
-  ex << "top " << tp << " bot " << bt << " rem";
-  for (int64_t i = tp; i < bt && i < tp + 64; ++i) ex << " " << *dq.slotPtr(i);
+  ex << "top " << tp << " bot " << bt << " stray " << g_stray << " rem";
+  for (int64_t i = tp; i < bt && i < tp + 64; ++i) ex << " " << idOf(*dq.slotPtr(i));
   S.print(ex.str());
+}
+
+template <size_t Cap, size_t W>
+static void stressCase(int nth, long ms) {
+  static dispenso::ChaseLevDeque<Elem<W>, Cap> dq;
+  std::memset(dq.storage_, 0, sizeof(dq.storage_));
+  g_trackOn = false;
+  std::atomic<bool> stop{false};
+  std::vector<std::vector<long>> got(static_cast<size_t>(nth) + 1);
+  std::vector<std::thread> ths;
+  for (int k = 0; k < nth; ++k) {
+    ths.emplace_back([&, k]() {
+      std::vector<long>& mine = got[static_cast<size_t>(k) + 1];
+      mine.reserve(1 << 20);
+      while (!stop.load(std::memory_order_acquire)) {
+        Elem<W> e = mkElem<W>(0);
+        if (dq.try_steal(e)) mine.push_back(idOf(e));
+      }
+    });
+  }
+  long next = 1;
+  {
+    std::vector<long>& mine = got[0];
+    mine.reserve(1 << 20);
+    auto deadline = std::chrono::steady_clock::now() + std::chrono::milliseconds(ms);
+    unsigned long it = 0;
+    while (true) {
+      if ((++it & 255) == 0 && std::chrono::steady_clock::now() >= deadline) break;
+      Elem<W> item = mkElem<W>(next);
+      if (dq.try_push(item)) {
+        ++next;
+      } else if ((it & 1023) == 1) {   // full: now and then take the newest one back
+        Elem<W> e = mkElem<W>(0);
+        if (dq.try_pop(e)) mine.push_back(idOf(e));
+      }
+    }
+    stop.store(true, std::memory_order_release);
+    for (auto& t : ths) t.join();
+    Elem<W> e = mkElem<W>(0);
+    while (dq.try_pop(e)) mine.push_back(idOf(e));
+  }
+  long n = next - 1, returned = 0, torn = 0, unknown = 0, dup = 0, lost = 0, firstdup = 0, firstlost = 0;
+  std::vector<unsigned char> cnt(static_cast<size_t>(n) + 2, 0);
+  for (auto& v : got)
+    for (long id : v) {
+      ++returned;
+      if (id == -777) ++torn;
+      else if (id < 1 || id > n) ++unknown;
+      else if (cnt[static_cast<size_t>(id)] < 200) ++cnt[static_cast<size_t>(id)];
+    }
+  for (long id = 1; id <= n; ++id) {
+    if (cnt[static_cast<size_t>(id)] > 1) { ++dup; if (!firstdup) firstdup = id; }
+    if (cnt[static_cast<size_t>(id)] == 0) { ++lost; if (!firstlost) firstlost = id; }
+  }
+  printf("stress cap %zu w %zu thieves %d pushed %ld returned %ld torn %ld dup %ld lost %ld unknown %ld firstdup %ld firstlost %ld\n",
+         Cap, W, nth, n, returned, torn, dup, lost, unknown, firstdup, firstlost);
+  fflush(stdout);
+}
+
+template <size_t W>
+static void dispatchCap(long cap, long i0, long budget, const std::vector<std::vector<Op>>& progs, const std::vector<long>& sched) {
+  switch (cap) {
+    case 1: runCase<1, W>(i0, budget, progs, sched); break;
+    case 2: runCase<2, W>(i0, budget, progs, sched); break;
+    case 4: runCase<4, W>(i0, budget, progs, sched); break;
+    case 8: runCase<8, W>(i0, budget, progs, sched); break;
+    default: runCase<16, W>(i0, budget, progs, sched); break;
+  }
+}
+template <size_t W>
+static void dispatchStress(long cap, int nth, long ms) {
+  switch (cap) {
+    case 1: stressCase<1, W>(nth, ms); break;
+    case 2: stressCase<2, W>(nth, ms); break;
+    case 4: stressCase<4, W>(nth, ms); break;
+    default: stressCase<8, W>(nth, ms); break;
+  }
 }
 
 int main() {
@@ -80,14 +250,27 @@ int main() {
     fflush(stdout);
     pid_t pid = fork();
     if (pid == 0) {
-      alarm(20);
+      alarm(30);
+      if (line.compare(0, 6, "stress") == 0) {
+        std::istringstream hd(line.substr(6));
+        long cap, w, nth, ms;
+        hd >> cap >> w >> nth >> ms;
+        switch (w) {
+          case 1: dispatchStress<1>(cap, static_cast<int>(nth), ms); break;
+          case 3: dispatchStress<3>(cap, static_cast<int>(nth), ms); break;
+          case 9: dispatchStress<9>(cap, static_cast<int>(nth), ms); break;
+          default: dispatchStress<17>(cap, static_cast<int>(nth), ms); break;
+        }
+        fflush(stdout);
+        _exit(0);
+      }
       std::vector<std::string> parts;
       std::stringstream ss(line);
       std::string part;
       while (std::getline(ss, part, ';')) parts.push_back(part);
       std::istringstream hd(parts[0]);
-      long cap, i0, budget;
-      hd >> cap >> i0 >> budget;
+      long cap, i0, budget, w;
+      hd >> cap >> i0 >> budget >> w;
       std::vector<std::vector<Op>> progs;
       std::vector<long> sched;
       for (size_t i = 1; i < parts.size(); ++i) {
@@ -101,12 +284,11 @@ int main() {
           progs.push_back(parseProg(parts[i]));
         }
       }
-      switch (cap) {
-        case 1: runCase<1>(i0, budget, progs, sched); break;
-        case 2: runCase<2>(i0, budget, progs, sched); break;
-        case 4: runCase<4>(i0, budget, progs, sched); break;
-        case 8: runCase<8>(i0, budget, progs, sched); break;
-        default: runCase<16>(i0, budget, progs, sched); break;
+      switch (w) {
+        case 1: dispatchCap<1>(cap, i0, budget, progs, sched); break;
+        case 3: dispatchCap<3>(cap, i0, budget, progs, sched); break;
+        case 9: dispatchCap<9>(cap, i0, budget, progs, sched); break;
+        default: dispatchCap<17>(cap, i0, budget, progs, sched); break;
       }
       fflush(stdout);
       _exit(0);
